@@ -797,11 +797,11 @@ func checkPowerLevelEventV2(sender string, createEvent PDU, oldPowerLevels, newP
 			)
 		}
 
-		// Check if the user is changing the level that was above or the same as their own.
-		if senderLevel <= level.old {
+		// Check if the user is changing a level that was above their own.
+		if senderLevel < level.old {
 			return errorf(
 				"sender with level %d is not allowed to change notification level from %d to %d"+
-					" because the old level is equal to or above the level of the sender",
+					" because the old level is above the level of the sender",
 				senderLevel, level.old, level.new,
 			)
 		}
